@@ -276,7 +276,7 @@ def run_model(ctx, name, types, modes, prop, mopts=MOPTS, uopts=UOPTS, D=1, laws
     inv = []
     if laws:
         if "m" in modes:
-            inv += ["ParseRender", "RoundTrip"]
+            inv += ["ParseRender", "RoundTrip", "CodecLaws"]
         if "g" in modes:
             inv += ["MergeLaw"]
         if "u" in modes:
